@@ -6,6 +6,9 @@ import (
 	"sort"
 	"strings"
 
+	z "github.com/Oudwins/zog"
+	"github.com/Oudwins/zog/parsers/zjson"
+
 	"zogverif/internal/core"
 	"zogverif/internal/obs"
 	"zogverif/internal/ref"
@@ -81,3 +84,33 @@ func trunc(s string, n int) string {
 func joinS(s []string) string { return strings.Join(s, " ; ") }
 
 func fpf(format string, a ...any) string { return fmt.Sprintf(format, a...) }
+
+// ambientSchema / ambientHistory: a few earlier calls through the tagged front ends (JSON), some of whose results are
+// handed back to the pools. Properties quantify over calls made in a process that has done other work before; running
+// such history in front of a case makes leaks from one execution into the next observable to that case's oracle.
+type ambientDest struct {
+	A string `json:"aj"`
+	B int    `json:"bj"`
+}
+
+var ambientSchema = z.Struct(z.Schema{"a": z.String().Min(3).Required(), "b": z.Int().GT(5).Catch(7)})
+
+func ambientHistory(r *rng.Rand) {
+	k := r.Intn(3)
+	for i := 0; i < k; i++ {
+		var d ambientDest
+		body := []string{`{"aj":"x","bj":1}`, `{"aj":"long enough","bj":9}`, `{}`, `{"aj":`, `{"zz":1}`}[r.Intn(5)]
+		var m z.ZogIssueMap
+		if r.Bool() {
+			m = ambientSchema.Parse(zjson.Decode(strings.NewReader(body)), &d, z.WithCtxValue("ambient", "leak"))
+		} else {
+			m = ambientSchema.Parse(map[string]any{"a": "x", "b": "nope"}, &d)
+		}
+		switch r.Intn(3) {
+		case 0:
+			z.Issues.CollectMap(m)
+		case 1:
+			_ = z.Issues.SanitizeMapAndCollect(m)
+		}
+	}
+}
